@@ -3,8 +3,9 @@ import SaModel.Read.ToD
 `cast t a lv` — the value-level meaning of reading a slot with logical value `lv` (Spec.decode) of array `a`
 into the Rust type `t`, written without any reader mechanics: records by field *name*, numbers by *value*,
 `Option` by null-ness.  This is the specification the typed reads are compared with by the driver (C02 typed part,
-C05 "exact or error" for the reading direction).  The container part is `partial` (it recurses over the target and
-the value in turn); theorems are stated about its total leaf part `castLeaf` and the `Option` layer.
+C05 "exact or error" for the reading direction).  Total: structural recursion over the target; the parts of the value
+(list items, map entries, struct fields) go through non-recursive combinators (`claimVals`, `claimEntries`,
+`claimStructAsMap`).  `SaModel/Props/C02.lean` (`read_typed_decode`) proves that the reader returns what `cast` demands.
 
   `.ok (some d)`  the read must return `d`
   `.error _`      the value has no exact representation in `t` ⇒ the read must fail
@@ -32,16 +33,20 @@ def Claim.andThen (x : Claim) (f : DVal → Claim) : Claim :=
   | .ok none => na
   | .error e => .error e
 
+/-- combine the claims about the parts of a sequence: a failing part makes the whole read fail, an unclaimed part
+makes the whole unclaimed -/
+def consClaim {α} (x : R (Option α)) (rest : R (Option (List α))) : R (Option (List α)) :=
+  match x with
+  | .error e => .error e
+  | .ok none => (match rest with | .error e => .error e | _ => .ok none)
+  | .ok (some d) =>
+    match rest with
+    | .ok (some ds) => .ok (some (d :: ds))
+    | other => other
+
 def claimList : List Claim → R (Option (List DVal))
   | [] => .ok (some [])
-  | x :: xs =>
-    match x with
-    | .error e => .error e
-    | .ok none => (match claimList xs with | .error e => .error e | _ => .ok none)
-    | .ok (some d) =>
-      match claimList xs with
-      | .ok (some ds) => .ok (some (d :: ds))
-      | other => other
+  | x :: xs => consClaim x (claimList xs)
 
 def andThenL (x : R (Option (List DVal))) (f : List DVal → Claim) : Claim :=
   match x with
@@ -76,12 +81,106 @@ def isStringLike : Arr → Bool
   | .dictionary _ _ => true
   | _ => false
 
+def LVal.isNull : LVal → Bool
+  | .null => true
+  | _ => false
+
 def isNullArr : Arr → Bool
   | .null _ => true
   | _ => false
 
+/-- no two equal names (Rust struct fields; Arrow struct children the by-name read can tell apart) -/
+def nodupNames : List String → Bool
+  | [] => true
+  | x :: xs => !xs.contains x && nodupNames xs
+
+def TFields.names : TFields → List String
+  | .nil => []
+  | .cons n _ r => n :: TFields.names r
+
+/-- the elements of a list value, each through `f` -/
+def claimVals (f : LVal → Claim) : LVals → R (Option (List DVal))
+  | .nil => .ok (some [])
+  | .cons v r => consClaim (f v) (claimVals f r)
+
+/-- the fields of a struct as map entries: key from the field name, value through `f` -/
+def claimStructAsMap (key : String → DVal) (f : Arr → LVal → Claim) : ArrFields → LFields → R (Option (List (DVal × DVal)))
+  | .cons fm a rest, .cons _ lv lrest =>
+    consClaim (match f a lv with | .ok (some d) => .ok (some (key fm.name, d)) | .ok none => .ok none | .error e => .error e)
+      (claimStructAsMap key f rest lrest)
+  | _, _ => .ok (some [])
+
+/-- key and value of one map entry -/
+def pairClaim (k v : Claim) : R (Option (DVal × DVal)) :=
+  match k, v with
+  | .error e, _ => .error e
+  | _, .error e => .error e
+  | .ok (some dk), .ok (some dv) => .ok (some (dk, dv))
+  | _, _ => .ok none
+
+def claimEntries (fk fv : LVal → Claim) : LEntries → R (Option (List (DVal × DVal)))
+  | .nil => .ok (some [])
+  | .cons lk lv r => consClaim (pairClaim (fk lk) (fv lv)) (claimEntries fk fv r)
+
+/-- one byte of a binary column read through `U8Deserializer` -/
+def u8Claim (t : Target) (x : UInt8) : Claim :=
+  match t with
+  | .any | .ignored => (match u8As t x with | .ok d => must d | .error _ => na)
+  | .int _ => (match u8As t x with | .ok d => must d | .error e => .error e)
+  | _ => na
+
+/-- a sequence target over the bytes of a binary column (`U8SliceDeserializer`) -/
+def castBinSeq (t : Target) (b : Bytes) : Claim :=
+  match claimList (b.map (u8Claim t)) with
+  | .ok (some ds) => must (.seq (DVals.ofList ds))
+  | .ok none => na
+  | .error e => .error e
+
+/-- scalar targets: `()` from a Null column, otherwise `castLeaf`; null into a non-Option target must fail -/
+def castScalar (t : Target) (a : Arr) (lv : LVal) : Claim :=
+  match lv with
+  | .null =>
+    (match t with
+     | .unit | .unitStruct => if isNullArr a then must .unit else mustFail "null into a non-Option target"
+     | _ => mustFail "null into a non-Option target")
+  | lv => ofLeaf (castLeaf t a lv)
+
+/-- enum from a string / dictionary column: unit variants by name -/
+def castVariantStr : TVariants → Bytes → Claim
+  | .nil, _ => mustFail "unknown variant"
+  | .cons n k rest, s =>
+    if strBytes n == s then
+      (match k with
+       | .unit => must (.enum (.str .transient (strBytes n)) .unit)
+       | _ => mustFail "strings carry no variant data")
+    else castVariantStr rest s
+
+/-- key of a struct field read as a map entry (`StrDeserializer`) -/
+def mapKeyOf (k : Target) (name : String) : DVal :=
+  match k with
+  | .string => .str .owned (strBytes name)
+  | _ => .str .transient (strBytes name)
+
+/-- tuple-like targets: only a struct column answers (`visit_seq` over its fields) -/
+def tupleClaim (f : ArrFields → LFields → R (Option (List DVal))) (a : Arr) (lv : LVal) : Claim :=
+  match a, lv with
+  | .struct _ _ fs, .struct lfs => andThenL (f fs lfs) fun ds => must (.seq (DVals.ofList ds))
+  | _, .null => mustFail "null into a non-Option target"
+  | _, _ => na
+
+/-- struct targets by field name: only a struct column answers; no claim when names repeat on either side -/
+def structClaim (tnames : List String) (f : ArrFields → LFields → R (Option (List (DVal × DVal)))) (a : Arr) (lv : LVal) : Claim :=
+  match a, lv with
+  | .struct _ _ fs, .struct lfs =>
+    if !nodupNames (ArrFields.names fs) || !nodupNames tnames then na
+    else andThenE (f fs lfs) fun es => must (.map (DEntries.ofList es))
+  | _, .null => mustFail "null into a non-Option target"
+  | _, _ => na
+
 mutual
-partial def cast : Target → Arr → LVal → Claim
+/-- structural recursion over the target (lists, entries and struct fields of the value go through the
+non-recursive combinators above) -/
+def cast : Target → Arr → LVal → Claim
   | .any, a, lv => must (toD a lv)
   | .ignored, _, _ => must .ignored
   | .option t, a, lv =>
@@ -91,45 +190,24 @@ partial def cast : Target → Arr → LVal → Claim
   | .newtype t, a, lv => cast t a lv
   | .seq t, a, lv =>
     match a, lv with
-    | .list _ _ _ _ el, .list items => andThenL (castList t el items) fun ds => must (.seq (DVals.ofList ds))
-    | .fixedSizeList _ _ _ _ el, .list items => andThenL (castList t el items) fun ds => must (.seq (DVals.ofList ds))
-    | a, .bin b =>
-      if isBinaryLike a then
-        match claimList (b.map fun x => ofLeaf (match u8As t x with
-            | .ok d => (match t with | .any | .ignored | .int _ => some (.ok d) | _ => none)
-            | .error e => (match t with | .int _ => some (.error e) | _ => none))) with
-        | .ok (some ds) => must (.seq (DVals.ofList ds))
-        | .ok none => na
-        | .error e => .error e
-      else na
+    | .list _ _ _ _ el, .list items => andThenL (claimVals (fun v => cast t el v) items) fun ds => must (.seq (DVals.ofList ds))
+    | .fixedSizeList _ _ _ _ el, .list items => andThenL (claimVals (fun v => cast t el v) items) fun ds => must (.seq (DVals.ofList ds))
+    | a, .bin b => if isBinaryLike a then castBinSeq t b else na
     | _, .null => mustFail "null into a non-Option target"
     | _, _ => na
-  | .tuple ts, a, lv =>
-    match a, lv with
-    | .struct _ _ fs, .struct lfs => andThenL (castTuple ts fs lfs) fun ds => must (.seq (DVals.ofList ds))
-    | _, .null => mustFail "null into a non-Option target"
-    | _, _ => na
-  | .tupleStruct ts, a, lv =>
-    match a, lv with
-    | .struct _ _ fs, .struct lfs => andThenL (castTuple ts fs lfs) fun ds => must (.seq (DVals.ofList ds))
-    | _, .null => mustFail "null into a non-Option target"
-    | _, _ => na
+  | .tuple ts, a, lv => tupleClaim (fun fs lfs => castTuple ts fs lfs) a lv
+  | .tupleStruct ts, a, lv => tupleClaim (fun fs lfs => castTuple ts fs lfs) a lv
   | .map k v, a, lv =>
     match a, lv with
     | .struct _ _ fs, .struct lfs =>
       (match k with
-       | .string | .any => andThenE (castStructAsMap k v fs lfs) fun es => must (.map (DEntries.ofList es))
+       | .string | .any => andThenE (claimStructAsMap (mapKeyOf k) (fun c w => cast v c w) fs lfs) fun es => must (.map (DEntries.ofList es))
        | _ => na)
-    | .map _ _ _ ks vs, .map es => andThenE (castEntries k v ks vs es) fun es => must (.map (DEntries.ofList es))
+    | .map _ _ _ ks vs, .map es =>
+      andThenE (claimEntries (fun w => cast k ks w) (fun w => cast v vs w) es) fun es => must (.map (DEntries.ofList es))
     | _, .null => mustFail "null into a non-Option target"
     | _, _ => na
-  | .struct tfs, a, lv =>
-    match a, lv with
-    | .struct _ _ fs, .struct lfs =>
-      if (ArrFields.names fs).eraseDups.length != (ArrFields.names fs).length then na
-      else andThenE (castFields tfs fs lfs) fun es => must (.map (DEntries.ofList es))
-    | _, .null => mustFail "null into a non-Option target"
-    | _, _ => na
+  | .struct tfs, a, lv => structClaim (TFields.names tfs) (fun fs lfs => castFields tfs fs lfs) a lv
   | .enum byIndex vs, a, lv =>
     match a, lv with
     | .union _ _ fs, .union t v =>
@@ -140,101 +218,43 @@ partial def cast : Target → Arr → LVal → Claim
     | a, .str b => if isStringLike a && !byIndex then castVariantStr vs b else na
     | _, .null => mustFail "null into a non-Option target"
     | _, _ => na
-  | t, a, lv =>
-    match lv with
-    | .null =>
-      (match t with
-       | .unit | .unitStruct => if isNullArr a then must .unit else mustFail "null into a non-Option target"
-       | _ => mustFail "null into a non-Option target")
-    | lv => ofLeaf (castLeaf t a lv)
-partial def castList : Target → Arr → LVals → R (Option (List DVal))
-  | _, _, .nil => .ok (some [])
-  | t, el, .cons v r =>
-    match cast t el v with
-    | .error e => .error e
-    | .ok none => (match castList t el r with | .error e => .error e | _ => .ok none)
-    | .ok (some d) =>
-      match castList t el r with
-      | .ok (some ds) => .ok (some (d :: ds))
-      | other => other
+  | .unit, a, lv => castScalar .unit a lv
+  | .unitStruct, a, lv => castScalar .unitStruct a lv
+  | .bool, a, lv => castScalar .bool a lv
+  | .int ty, a, lv => castScalar (.int ty) a lv
+  | .f32, a, lv => castScalar .f32 a lv
+  | .f64, a, lv => castScalar .f64 a lv
+  | .char, a, lv => castScalar .char a lv
+  | .string, a, lv => castScalar .string a lv
+  | .str, a, lv => castScalar .str a lv
+  | .bytes, a, lv => castScalar .bytes a lv
+  | .byteBuf, a, lv => castScalar .byteBuf a lv
 /-- element `i` from field `i`; too few fields ⇒ the read must fail; surplus fields are not represented in a tuple
 (no claim is made about them) -/
-partial def castTuple : Targets → ArrFields → LFields → R (Option (List DVal))
+def castTuple : Targets → ArrFields → LFields → R (Option (List DVal))
   | .nil, _, _ => .ok (some [])
-  | .cons t rest, .cons _ a frest, .cons _ v lrest =>
-    match cast t a v with
-    | .error e => .error e
-    | .ok none => (match castTuple rest frest lrest with | .error e => .error e | _ => .ok none)
-    | .ok (some d) =>
-      match castTuple rest frest lrest with
-      | .ok (some ds) => .ok (some (d :: ds))
-      | other => other
+  | .cons t rest, .cons _ a frest, .cons _ v lrest => consClaim (cast t a v) (castTuple rest frest lrest)
   | .cons _ _, _, _ => fail "tuple longer than the struct"
-partial def castStructAsMap : Target → Target → ArrFields → LFields → R (Option (List (DVal × DVal)))
-  | k, v, .cons fm a rest, .cons _ lv lrest =>
-    let key : DVal := match k with | .string => .str .owned (strBytes fm.name) | _ => .str .transient (strBytes fm.name)
-    match cast v a lv with
-    | .error e => .error e
-    | .ok none => (match castStructAsMap k v rest lrest with | .error e => .error e | _ => .ok none)
-    | .ok (some d) =>
-      match castStructAsMap k v rest lrest with
-      | .ok (some ds) => .ok (some ((key, d) :: ds))
-      | other => other
-  | _, _, _, _ => .ok (some [])
-partial def castEntries : Target → Target → Arr → Arr → LEntries → R (Option (List (DVal × DVal)))
-  | _, _, _, _, .nil => .ok (some [])
-  | k, v, ks, vs, .cons lk lv r =>
-    match cast k ks lk, cast v vs lv with
-    | .error e, _ => .error e
-    | _, .error e => .error e
-    | .ok (some dk), .ok (some dv) =>
-      (match castEntries k v ks vs r with
-       | .ok (some ds) => .ok (some ((dk, dv) :: ds))
-       | other => other)
-    | _, _ => (match castEntries k v ks vs r with | .error e => .error e | _ => .ok none)
 /-- by name: every target field from the struct field of that name; missing ⇒ `None` for `Option`, else fail -/
-partial def castFields : TFields → ArrFields → LFields → R (Option (List (DVal × DVal)))
+def castFields : TFields → ArrFields → LFields → R (Option (List (DVal × DVal)))
   | .nil, _, _ => .ok (some [])
   | .cons n t rest, fs, lfs =>
     let here : Claim := match fieldNamed fs lfs n with
       | some (a, v) => cast t a v
       | none => if t.isOption then must .none else mustFail "missing field"
-    match here with
-    | .error e => .error e
-    | .ok none => (match castFields rest fs lfs with | .error e => .error e | _ => .ok none)
-    | .ok (some d) =>
-      match castFields rest fs lfs with
-      | .ok (some ds) => .ok (some ((.str .transient (strBytes n), d) :: ds))
-      | other => other
-partial def castVariant : TVariants → Option Nat → String → Arr → LVal → Claim
+    consClaim (match here with | .ok (some d) => .ok (some ((DVal.str .transient (strBytes n), d))) | .ok none => .ok none | .error e => .error e)
+      (castFields rest fs lfs)
+def castVariant : TVariants → Option Nat → String → Arr → LVal → Claim
   | .nil, _, _, _, _ => mustFail "unknown variant"
   | .cons n k rest, sel, name, child, v =>
     if (match sel with | some i => i == 0 | none => n == name) then
       (castKind k child v).andThen fun p => must (.enum (.str .transient (strBytes n)) p)
     else castVariant rest (sel.map (· - 1)) name child v
-partial def castVariantStr : TVariants → Bytes → Claim
-  | .nil, _ => mustFail "unknown variant"
-  | .cons n k rest, s =>
-    if strBytes n == s then
-      (match k with
-       | .unit => must (.enum (.str .transient (strBytes n)) .unit)
-       | _ => mustFail "strings carry no variant data")
-    else castVariantStr rest s
-partial def castKind : VKind → Arr → LVal → Claim
-  | .unit, child, v => if isNullArr child && v == .null then must .unit else na
+def castKind : VKind → Arr → LVal → Claim
+  | .unit, child, v => if isNullArr child && LVal.isNull v then must .unit else na
   | .newtype t, child, v => cast t child v
-  | .tuple ts, child, v =>
-    match child, v with
-    | .struct _ _ fs, .struct lfs => andThenL (castTuple ts fs lfs) fun ds => must (.seq (DVals.ofList ds))
-    | _, .null => mustFail "null into a non-Option target"
-    | _, _ => na
-  | .struct tfs, child, v =>
-    match child, v with
-    | .struct _ _ fs, .struct lfs =>
-      if (ArrFields.names fs).eraseDups.length != (ArrFields.names fs).length then na
-      else andThenE (castFields tfs fs lfs) fun es => must (.map (DEntries.ofList es))
-    | _, .null => mustFail "null into a non-Option target"
-    | _, _ => na
+  | .tuple ts, child, v => tupleClaim (fun fs lfs => castTuple ts fs lfs) child v
+  | .struct tfs, child, v => structClaim (TFields.names tfs) (fun fs lfs => castFields tfs fs lfs) child v
 end
 
 end SaModel.Read
